@@ -13,7 +13,29 @@ from . import interp as I
 from . import vals
 from .vals import Val
 
-PROVE_TIMEOUT_MS = {'quick': 20000, 'thorough': 120000}
+# Proof budgets are deterministic (z3 resource units), so a verdict does not depend on how busy the
+# machine is; the wall-clock timeout is only a backstop far above what the budget allows.
+PROVE_RLIMIT = {'quick': 400000000, 'thorough': 2000000000}
+PROVE_TIMEOUT_MS = {'quick': 900000, 'thorough': 3600000}
+
+
+def _rl_now():
+    """z3's resource counter is cumulative per context: read it through a trivial check"""
+    t = z3.Solver()
+    t.add(z3.BoolVal(True))
+    t.check()
+    return _rl(t)
+
+
+def _rl(solver):
+    try:
+        st = solver.statistics()
+        for k in st.keys():
+            if k == 'rlimit count':
+                return st.get_key_value(k)
+    except Exception:
+        pass
+    return 0
 
 
 def setup_engine(seed=0):
@@ -353,6 +375,7 @@ class Verifier:
         self.tier = tier
         self.seed = seed
         self.timeout = PROVE_TIMEOUT_MS[tier]
+        self.rlimit = PROVE_RLIMIT[tier]
 
     def prove(self, E, p, name, goal, kind, rep, argsv=None, con=None):
         """Discharge ``pc => goal``."""
@@ -365,6 +388,7 @@ class Verifier:
         E.saturate(p.solver.assertions() + [g])
         s = z3.Solver()
         s.set('timeout', self.timeout)
+        s.set('rlimit', self.rlimit)
         s.set('random_seed', 0)
         for a in p.solver.assertions():
             s.add(a)
@@ -373,19 +397,30 @@ class Verifier:
         s.add(z3.Not(g))
         # stage 1: quantifier-free (quantified facts are present through their
         # instances at the index terms and skolem witnesses of this path)
+        rl0 = _rl_now()
         r = s.check()
+        effort = _rl(s) - rl0
+        candidate_only = False
         if r != z3.unsat and p.qdefs:
-            # stage 2: with the quantified definitions themselves
+            # stage 2: with the quantified definitions themselves.  A stage-1 `sat` is a model of
+            # the abstraction only (the Bools standing for quantified facts are unconstrained
+            # beyond their instances), so it is a verdict only when stage 2 does not contradict
+            # it: unsat -> discharged, sat -> failed, unknown -> undecided (never `failed`).
             s2 = z3.Solver()
             s2.set('timeout', self.timeout)
+            s2.set('rlimit', self.rlimit)
             s2.set('random_seed', 0)
             for a in s.assertions():
                 s2.add(a)
             for qd in p.qdefs:
                 s2.add(qd)
             r2 = s2.check()
-            if r2 == z3.unsat or (r2 == z3.sat and r != z3.sat):
+            effort = _rl(s2) - rl0
+            if r2 == z3.unsat or r2 == z3.sat:
                 r, s = r2, s2
+            elif r == z3.sat:
+                # keep the stage-1 model as a candidate input for the native replay only
+                candidate_only = True
         model_json = None
         detail = str(r)
         if r == z3.sat:
@@ -400,7 +435,12 @@ class Verifier:
         dt = time.time() - t0
         rep.solver_seconds += dt
         status = 'discharged' if r == z3.unsat else ('failed' if r == z3.sat else 'unknown')
+        if candidate_only and status == 'failed':
+            status = 'unknown'
+            detail = 'unknown: sat in the quantifier-free abstraction only; with the quantified definitions: ' + \
+                     s2.reason_unknown()
         ob = I.Obligation(name, kind, status, detail, model_json, dt, list(p.labels))
+        ob.effort = effort
         if status != 'discharged':
             ob.goal = str(g)[:2000]
         rep.obligations.append(ob)
